@@ -265,9 +265,9 @@ Section BRIDGE2.
     | Some (VStr s), Some p => Some (VStr (json_get s p)) | _, _ => None end.
   Proof. reflexivity. Qed.
   Lemma ev_sep_json ls ps g :
-    EV (Sep "" [Raw "mapFromArrays(["; Sep "," ls; Raw "], ["; Sep "," ps; Raw "])"]) g =
+    EV (Sep "" [Raw "mapFilter((k,v) -> v != '', mapFromArrays(["; Sep "," ls; Raw "], ["; Sep "," ps; Raw "]))"]) g =
     match str_lits ls, map_opt (fun p => match EV p g with Some (VStr v) => Some v | _ => None end) ps with
-    | Some ks, Some vs => if Nat.eqb (List.length ks) (List.length vs) then Some (VMap (combine ks vs)) else None
+    | Some ks, Some vs => if Nat.eqb (List.length ks) (List.length vs) then Some (VMap (filter nonempty_kv (combine ks vs))) else None
     | _, _ => None end.
   Proof. reflexivity. Qed.
   Lemma str_lits_strv l : str_lits (map StrV l) = Some l.
@@ -279,7 +279,7 @@ Section BRIDGE2.
     injection H as <-. cbn [List.length]. now rewrite (IH xs eq_refl).
   Qed.
   Lemma ev_json_map lbls paths r g line : lookup "string" r = Some (VStr line) -> List.length lbls = List.length paths ->
-    EV (sql_json_parser lbls paths) (r :: g) = Some (VMap (combine lbls (map (json_get line) paths))).
+    EV (sql_json_parser lbls paths) (r :: g) = Some (VMap (filter nonempty_kv (combine lbls (map (json_get line) paths)))).
   Proof.
     intros Hs Hlen. unfold sql_json_parser. rewrite ev_sep_json, str_lits_strv.
     rewrite (map_opt_map_total json_path_sql _ (json_get line)).
@@ -309,7 +309,7 @@ Section BRIDGE2.
 
   (* | json l1="p1", ... : the labels body is wrapped in mapUpdate(., <extracted map>), the fingerprint becomes the hash *)
   Definition json_state (params : list parser_param) (paths : list (list string)) (t : lstate) : lstate :=
-    let ls := map_update (p_labels (snd t)) (combine (map pp_label params) (map (json_get (x_line (fst t))) paths)) in
+    let ls := map_update (p_labels (snd t)) (filter nonempty_kv (combine (map pp_label params) (map (json_get (x_line (fst t))) paths))) in
     (fst t, {| p_labels := ls; p_fp := hash_labels ls |}).
   Lemma colsem_json e_ts e_fp e_lab e_str e_val r t params paths :
     colsem e_ts e_fp e_lab e_str e_val r t -> lookup "string" r = Some (VStr (x_line (fst t))) ->
